@@ -27,6 +27,7 @@ EXPLANATION = (
     "length byte is present. Split points x delays x contents end-to-end are not decided."
     ' (R4, shared with C02.R6) every path of the receive callbacks reaches the reassembly test and the validator.'
     ' (R5, shared with C05.R4) no timer of an earlier request is armed when a request ends, so the wait for the second fragment lasts the configured timeout.'
+    ' (R3 first-fragment) the shortest first fragment the property names (5 bytes RTU, 9 bytes TCP / AA55) of a conforming read answer can only end in PartialResponseException; a handler that stores fragments but never joins one violates R2.'
 )
 
 
@@ -122,7 +123,12 @@ def r2(ctx, rep, ci):
                 rep.check(ok, "C07.R2", key + ("" if ok else ":" + p.describe(6)), cb.loc(ev.node), "fragment joined only on exact remaining length, then validated, buffer cleared",
                           bad="%s: '%s' %s [path %s]" % (cb.short, norm(ev.node), why, p.describe(8)))
         if njoin == 0:
-            raise AnalysisError("%s never joins a fragment" % cb.short)
+            # the handler still stores fragments (R3) but nothing ever prepends one to what arrives next
+            stores = any(isinstance(x, ast.Attribute) and x.attr == "_partial_data" and isinstance(x.ctx, ast.Store) for x in ast.walk(cb.node))
+            if not stores:
+                raise AnalysisError("%s never joins a fragment" % cb.short)
+            rep.violation("C07.R2", "join:%s:none" % cb.short, cb.loc(),
+                          "%s keeps a first fragment (self._partial_data) but never joins it with the bytes received next: a response split in two is never reassembled" % cb.short)
     # the fragment fields are read only in the receive callbacks (of either transport: a shared helper serves both)
     all_cbs = [f for f in loop_callbacks(ctx) if f.name in ("datagram_received", "data_received")]
     for c in [x for x in prog.mro(ci) if hasattr(x, "methods")]:
@@ -222,3 +228,39 @@ def r3_raise_sites(ctx, rep, fams):
                       bad="%s: %s" % (fam.validator.short, "; ".join(why)))
     if nsites < 3:
         raise AnalysisError("expected a PartialResponseException raise site in each of the three validators, found %d" % nsites)
+    # ... and the shortest first fragment the property names (header up to the length field: 5 bytes Modbus/RTU, 9 bytes
+    # Modbus/TCP and AA55) does reach that raise: every other outcome is refuted for such a prefix of a conforming answer
+    from ..symx import Fact, joint_contradiction
+    from .c01 import vparam_term
+    MODBUS_READ = 3
+    for fam in fams.values():
+        data = data_param(fam)
+        ln = Lin.of_term(("len", ("var", data)))
+        k = 5 if fam.kind == "rtu" else 9
+        A = [Fact("ge", ln - Lin.of_const(k)), Fact("ge", Lin.of_const(k) - ln)]
+        lbb = Lin.of_term(byte_t(data, fam.lb))
+        if fam.kind == "aa55":
+            A.append(Fact("ge", lbb - Lin.of_const(1)))
+        else:
+            fcb = Lin.of_term(byte_t(data, fam.fc))
+            A.append(Fact("eq", fcb - Lin.of_term(vparam_term(fam, "cmd"))))
+            A.append(Fact("eq", fcb - Lin.of_const(MODBUS_READ)))
+            val = Lin.of_term(vparam_term(fam, "value"))
+            A.append(Fact("eq", lbb - val.scale(2)))
+            A.append(Fact("ge", val - Lin.of_const(1)))
+            A.append(Fact("ge", lbb - Lin.of_const(2)))          # (implied: byte count = 2 x registers >= 2)
+        bad = None
+        reached = False
+        for p, r in validator_paths(ctx, fam):
+            is_partial = p.end == "raise" and p.end_data is partial
+            if joint_contradiction(A, r.facts) is not None:
+                continue
+            if is_partial:
+                reached = True
+            elif bad is None:
+                bad = p
+        ok = reached and bad is None
+        rep.check(ok, "C07.R3", "first-fragment:%s" % fam.validator.short, fam.validator.loc(),
+                  "%s: a %d-byte prefix of a conforming read answer (header up to the length field) can only end in PartialResponseException" % (fam.validator.short, k),
+                  bad="%s: a first fragment of %d bytes - the header up to the length field of a conforming read answer - %s, so the second fragment is never waited for [path %s]" % (
+                      fam.validator.short, k, "is not announced as partial on any path" if not reached else "can end in '%s' instead of PartialResponseException" % (bad.end if bad else ""), bad.describe(6) if bad else ""))
